@@ -48,7 +48,8 @@ class FuncSpec(object):
     self.conc = d.get('conc', None)
     g = d.get('guar', None)
     self.guar = ([self.conc] if self.conc else []) if g is None else list(g)   # CONCURRENCY entries this unit must establish
-    self.no_exit = d.get('no_exit', False)        # the function never returns normally (worker loop)               # name of the CONCURRENCY entry governing the receiver's shared state
+    self.no_exit = d.get('no_exit', False)
+    self.literals = dict((k, parse_type(v)) for k, v in d.get('literals', {}).items())  # source text of a literal -> declared type        # the function never returns normally (worker loop)               # name of the CONCURRENCY entry governing the receiver's shared state
     self.pure = d.get('pure', False)
     self.inline = d.get('inline', False)
     self.locals = dict((k, parse_type(v)) for k, v in d.get('locals', {}).items())
@@ -90,6 +91,7 @@ class Registry(object):
     self.predicates = {}
     self.modules = {}
     self.concurrency = {}
+    self.globals = {}      # module-level singletons: name -> dict(type=..., assume=[spec clauses over the name])
 
   def load_package(self, pkgname='specs'):
     pkg = importlib.import_module(pkgname)
@@ -113,6 +115,8 @@ class Registry(object):
       if k in self.externs:
         raise ValueError('duplicate extern spec %s' % k)
       self.externs[k] = ExternSpec(k, d)
+    for k, d in getattr(mod, 'GLOBALS', {}).items():
+      self.globals[k] = d
     for k, d in getattr(mod, 'CONCURRENCY', {}).items():
       if k in self.concurrency:
         raise ValueError('duplicate concurrency entry %s' % k)
